@@ -104,11 +104,20 @@ class DFXPReader(BaseReader):
         default_language = dfxp_document.tt.attrs.get('xml:lang',
                                                       DEFAULT_LANGUAGE_CODE)
 
-        # Each div represents all the captions for a single language.
+        # Each div holds captions of a single language. Several divs may
+        # share a language and divs may be nested: every <p> belongs to its
+        # nearest div, and the captions of a language keep document order.
         for div in dfxp_document.find_all('div'):
-            lang = div.attrs.get('xml:lang', default_language)
+            lang = self._find_div_language(div, default_language)
+            if lang not in caption_dict:
+                caption_dict[lang] = CaptionList(layout_info=div.layout_info)
 
-            caption_dict[lang] = self._convert_div_to_caption_list(div)
+        for p_tag in dfxp_document.find_all('p'):
+            div = p_tag.find_parent('div')
+            if div is not None and p_tag.get_text().strip():
+                lang = self._find_div_language(div, default_language)
+                caption_dict[lang].append(
+                    self._convert_p_tag_to_caption(p_tag))
 
         for style in dfxp_document.find_all('style'):
             id_ = style.attrs.get('xml:id') or style.attrs.get('id')
@@ -130,6 +139,15 @@ class DFXPReader(BaseReader):
     def _get_dfxp_parser_class():
         """Hook method for providing a custom DFXP parser"""
         return LayoutAwareDFXPParser
+
+    @staticmethod
+    def _find_div_language(div, default_language):
+        """The xml:lang of the div, else of the nearest enclosing div"""
+        while div is not None:
+            if 'xml:lang' in div.attrs:
+                return div.attrs['xml:lang']
+            div = div.find_parent('div')
+        return default_language
 
     def _convert_div_to_caption_list(self, div):
         return CaptionList(
